@@ -111,17 +111,30 @@ def _cvc5_check(smt2: str, timeout_ms: int) -> tuple[str, dict, str]:
 def _work(job):
     idx, smt2, timeout_ms, use_cvc5 = job
     t0 = time.time()
-    try:
-        st, model, reason = _z3_check(smt2, timeout_ms)
-        backend = 'z3-' + z3.get_version_string()
-    except Exception as e:  # z3 parse errors etc.
-        st, model, reason, backend = 'unknown', {}, f'z3 error: {e}', 'z3'
-    if st == 'unknown' and use_cvc5:
-        st2, model2, reason2 = _cvc5_check(smt2, timeout_ms)
-        if st2 != 'unknown':
-            st, model, reason, backend = st2, model2, reason2, 'cvc5-1.0.3'
-        else:
-            reason = f'z3: {reason}; cvc5: {reason2}'
+    # Staged: a short z3 attempt, then cvc5 (much stronger on strings/sequences), then z3 with the full budget.
+    # Verdicts therefore do not depend on z3's seq solver finishing just inside its budget.
+    stages = [('z3', min(timeout_ms, 3000))]
+    if use_cvc5:
+        stages.append(('cvc5', timeout_ms))
+    if timeout_ms > 3000:
+        stages.append(('z3', timeout_ms))
+    st, model, reason, backend = 'unknown', {}, '', ''
+    reasons = []
+    for solver, budget in stages:
+        try:
+            if solver == 'z3':
+                st, model, reason = _z3_check(smt2, budget)
+                backend = 'z3-' + z3.get_version_string()
+            else:
+                st, model, reason = _cvc5_check(smt2, budget)
+                backend = 'cvc5-1.0.3'
+        except Exception as e:  # parse errors etc.
+            st, model, reason = 'unknown', {}, f'{solver} error: {e}'
+        if st != 'unknown':
+            break
+        reasons.append(f'{solver}({budget}ms): {reason}')
+    if st == 'unknown':
+        reason = '; '.join(reasons)
     return idx, st, model, reason, backend, time.time() - t0
 
 
@@ -133,7 +146,9 @@ def discharge(obligations: list, timeout_ms: int = 10000, jobs: int = 0, use_cvc
             smt2 = to_smt2(ob.pc, None, negate=False)
         else:
             smt2 = to_smt2(ob.pc, ob.goal)
-        jobs_list.append((i, smt2, timeout_ms, use_cvc5 and ob.kind != 'cover'))
+        # reachability covers only need one satisfiable instance per name: keep their budget small
+        jobs_list.append((i, smt2, timeout_ms if ob.kind != 'cover' else min(timeout_ms, 5000),
+                          use_cvc5 and ob.kind != 'cover'))
     results: list[Optional[Result]] = [None] * len(obligations)
     njobs = jobs or min(16, os.cpu_count() or 4)
     if len(jobs_list) <= 2 or njobs == 1:
